@@ -114,7 +114,7 @@ func C20(c *core.Ctx) {
 	type cfg struct{ procs, rounds, loads, uses int }
 	cfgs := []cfg{{16, 3, 9, 8}, {2, 2, 6, 6}}
 	if c.Thorough() {
-		cfgs = []cfg{{16, 12, 12, 12}, {8, 8, 9, 8}, {4, 8, 9, 8}, {2, 8, 9, 8}, {1, 4, 9, 8}, {3, 6, 15, 4}, {16, 6, 3, 16}}
+		cfgs = []cfg{{16, 40, 12, 12}, {8, 30, 9, 8}, {4, 30, 9, 8}, {2, 30, 9, 8}, {1, 8, 9, 8}, {3, 20, 15, 4}, {16, 20, 3, 16}, {12, 20, 18, 18}}
 	}
 	if tableBroken || len(c.ProofBroken) > 0 {
 		// the proof no longer stands: search harder for a schedule that shows it
